@@ -68,7 +68,8 @@ let () = register "tagged_tuple_cmp" (fun a ->
   let xs = nlist_of_arg a.(0) and ys = nlist_of_arg a.(1) in
   let ka = List.concat_map tagged_put64 xs and kb = List.concat_map tagged_put64 ys in
   out_int "cmp" (sgn (lex ka kb));
-  out_hex "ka" ka; out_hex "kb" kb)
+  out_hex "ka" ka; out_hex "kb" kb;
+  out_str "rev" "same")
 
 let () = register "tagged_add" (fun a ->
   let b = bytes_of_hex a.(0) in
